@@ -54,7 +54,7 @@ HtmlFrags == <<
   F("link", {"KeepDefaultAttrVals", "KeepQuotes"}), F("form", {"KeepDefaultAttrVals", "KeepQuotes"}),
   F("aq", {"KeepQuotes", "KeepWhitespace"}), F("auq", {}), F("area", {"KeepDefaultAttrVals", "KeepQuotes"}),
   F("col", {"KeepDefaultAttrVals", "KeepEndTags"}), F("pre", {}), F("ta", {}), F("ent", {"KeepWhitespace"}),
-  F("br", {}), F("h", {"KeepWhitespace"}), F("styleattr", {"KeepQuotes"}),
+  F("br", {}), F("h", {"KeepWhitespace"}), F("styleattr", {"KeepQuotes"}), F("onattr", {"KeepQuotes"}),
   T("tstmt", {}), T("tattr", {"KeepQuotes"}), T("tmix", {"KeepWhitespace"}) >>
 XmlFrags == <<
   F("mix", {"KeepWhitespace"}), F("nest", {"KeepWhitespace"}), F("cm", {"KeepWhitespace"}),
@@ -76,7 +76,8 @@ JsFrags == <<
   F("tmpl", {"Version"}), F("fn", {"KeepVarNames"}), F("closure", {"KeepVarNames"}), F("hoist", {"KeepVarNames"}),
   F("num", {"Precision"}), F("nums", {"Precision"}), F("arrow", {"KeepVarNames", "Version"}),
   F("letc", {"KeepVarNames", "Version"}), F("cls", {"KeepVarNames", "Version"}), F("in2020", {"Version"}),
-  F("cond", {}), F("loop", {"KeepVarNames"}), F("obj", {}), F("str", {"Version"}) >>
+  F("cond", {}), F("loop", {"KeepVarNames"}), F("obj", {}), F("str", {"Version"}),
+  F("pow", {"Version"}), F("short", {"Version", "KeepVarNames"}) >>
 FragsOf(Lang) == CASE Lang = "html" -> HtmlFrags [] Lang = "xml" -> XmlFrags [] Lang = "json" -> JsonFrags
                   [] Lang = "css" -> CssFrags [] Lang = "svg" -> SvgFrags [] Lang = "js" -> JsFrags
 Frags == FragsOf(lang)
